@@ -269,10 +269,25 @@ PROPS["C10"] = {
   "assumptions": ["all accesses to the protocol state go through the functions under contract (syntactic scans of `self.state` per function; ReqSocket/RepSocket fields are private)"],
 }
 
+PROPS["C09"] = {
+  "units": ["reqrep"],
+  "kani_quick": [], "kani_thorough": [],
+  "claim": "Protocol-state part for REQ and REP only, proved on the verbatim async functions: a future can be dropped only where it returned Pending, i.e. at an await; "
+           "before EVERY await of ReqSocket::send / recv_multipart and RepSocket::recv / recv_multipart (the assertion is inserted mechanically at each `.await` of the extracted text) no write to the protocol state has happened yet, "
+           "so dropping the call at any point leaves the lock-step state exactly as the call found it (the socket is not stuck: the next valid call is accepted), and the turn locks introduced by the C10 repairs are RAII guards released on drop. "
+           "REP send_multipart takes the pending request in one critical section before its only await, so a dropped reply leaves the socket in ReadyToReceive (a valid resting state), never in between.",
+  "level_note": "Partial. Not covered: that no queued message is lost or duplicated when a recv future is dropped (ReadyPipeQueue::pop re-arms the ready list in a second await after the item was taken: whether that await can ever return Pending depends on "
+                "the ready-list capacity invariant, an interleaving property, see C08), whole-or-nothing delivery of a cancelled send (fibre channel futures), DEALER's send transaction and ROUTER's fragmented-send permit, REQ recv (tokio::select!), "
+                "internal cancellation by timeouts. Drop semantics of the guards are Rust's, not modelled.",
+  "technique": "contract-based deductive verification (Verus; mechanically inserted await-point assertions over the ghost write log of unit reqrep)",
+  "trusted_base": PROPS["C10"]["trusted_base"],
+  "assumptions": ["a future is only ever dropped at an await point that returned Pending (Rust async semantics)"],
+}
+
 NOT_BUILT = "check not built yet in this revision (planned, see DESIGN.md section 9)"
 NOT_APPLICABLE = {
  
-  "C09": NOT_BUILT,
+
   "C08": "lost wake-ups are an invariant over interleavings of individual atomic/channel steps plus a liveness claim; Kani has no threads and Verus would need its own atomic/permission types, i.e. a re-implementation (a model), not the code that runs (DESIGN.md section 6)",
   "C12": "SubscriptionTrie is Arc<RwLock<TrieNode>> nodes with HashMap children and an AtomicUsize: no abstract view without rewriting it (Verus), parking_lot crashes kani-compiler 0.68; non-blocking fan-out is a schedule property",
   "C15": "the deciding state (bytes framed but unwritten in another actor, kernel buffers, the close deadline) spans actors and the OS; no contract over one function expresses 'accepted messages are transmitted within LINGER'",
